@@ -43,11 +43,22 @@ mod algorithms {
     //! the same entry point as `similar::algorithms::diff`, with the case's deadline variant
     use super::*;
     pub fn diff<D: DiffHook>(alg: similar::Algorithm, d: &mut D, old: &[u32], or: std::ops::Range<usize>, new: &[u32], nr: std::ops::Range<usize>) -> Result<(), D::Error> {
+        // full-range cases rotate through the slice entry points as well: diff_slices,
+        // diff_slices_deadline with a real deadline one hour ahead (never reached), and - in the
+        // deadline variants - diff_slices_deadline under the virtual clock
+        let full = or == (0..old.len()) && nr == (0..new.len());
+        let pick = (old.len() + 2 * new.len()) % 3;
         match DL.with(|x| x.get()) {
+            0 if full && pick == 1 => similar::algorithms::diff_slices(alg, d, old, new),
+            0 if full && pick == 2 => similar::algorithms::diff_slices_deadline(alg, d, old, new, Some(super::super::common::far_future())),
             0 => similar::algorithms::diff(alg, d, old, or, new, nr),
             v => {
                 similar::verif::clock::install(Some([0u64, 0, 1, 3][v as usize]));
-                let r = similar::algorithms::diff_deadline(alg, d, old, or, new, nr, Some(super::super::common::far_future()));
+                let r = if full && pick != 0 {
+                    similar::algorithms::diff_slices_deadline(alg, d, old, new, Some(super::super::common::far_future()))
+                } else {
+                    similar::algorithms::diff_deadline(alg, d, old, or, new, nr, Some(super::super::common::far_future()))
+                };
                 similar::verif::clock::install(None);
                 r
             }
@@ -562,7 +573,7 @@ impl Prop for C08 {
     const ID: &'static str = "C08";
     const LEVEL: &'static str = "fault_enumeration";
     fn rule() -> String {
-        "cases = (algorithm, old, new, ranges, adapter stack in {bare, Replace, Compact, Compact<Replace>, NoFinishHook, &mut, Replace<NoFinishHook>, Replace<&mut>, Replace<Replace>, a captured op list with Replace ops replayed through DiffOp::apply_to_hook into Replace, ONE Replace / Compact<Replace> adapter instance used for two diffs one of which is over empty ranges}, hook flavour in {overrides replace, default replace}, deadline in {none, virtual clock expiring at probe 0, 1, 3}); for each case the success log is recorded and then EVERY call index k of that log is made to fail in a separate execution (fault enumeration; 'executions' counts them). Oracle: finish exactly once and last (never through NoFinishHook, which otherwise forwards the bare run unchanged); failing call k => diff returns exactly Err(k), the hook saw exactly k+1 calls and they are the first k+1 calls of the success log; default-replace log == overriding log with replace expanded to delete+insert; two diffs through one adapter == the two diffs through fresh adapters one after the other; a stage of hook methods called by hand: replace(o,ol,n,nl) incl. empty sides on a hook without override == delete then insert, directly and through &mut / NoFinishHook / Replace. Non-trivial = success log has >= 3 calls incl. a change; distinct = distinct serialized case.".into()
+        "full-range cases rotate through the entry points algorithms::diff, diff_slices and diff_slices_deadline (real deadline one hour ahead / virtual clock); cases = (algorithm, old, new, ranges, adapter stack in {bare, Replace, Compact, Compact<Replace>, NoFinishHook, &mut, Replace<NoFinishHook>, Replace<&mut>, Replace<Replace>, a captured op list with Replace ops replayed through DiffOp::apply_to_hook into Replace, ONE Replace / Compact<Replace> adapter instance used for two diffs one of which is over empty ranges}, hook flavour in {overrides replace, default replace}, deadline in {none, virtual clock expiring at probe 0, 1, 3}); for each case the success log is recorded and then EVERY call index k of that log is made to fail in a separate execution (fault enumeration; 'executions' counts them). Oracle: finish exactly once and last (never through NoFinishHook, which otherwise forwards the bare run unchanged); failing call k => diff returns exactly Err(k), the hook saw exactly k+1 calls and they are the first k+1 calls of the success log; default-replace log == overriding log with replace expanded to delete+insert; two diffs through one adapter == the two diffs through fresh adapters one after the other; a stage of hook methods called by hand: replace(o,ol,n,nl) incl. empty sides on a hook without override == delete then insert, directly and through &mut / NoFinishHook / Replace. Non-trivial = success log has >= 3 calls incl. a change; distinct = distinct serialized case.".into()
     }
     fn assumptions() -> Vec<String> {
         vec!["the failing hook returns its call index as the error value, so 'precisely that error' is checked by value".into()]
